@@ -23,8 +23,8 @@ ASSUMPTIONS = [
     "fake Device/Storage/Interface classes are the repository's test fakes (tests/annet/test_mesh/fakes.py)",
     "handlers set address families and shared options on the session only (per-peer families would legitimately differ between the two ends)",
 ]
-FLOORS = {"quick": {"topologies": 250, "executions": 3000, "mirrored_pairs": 600, "permutations_compared": 1500, "conflicts_expected": 30, "merge_law_checks": 3000, "shared_handler_constants_checked": 200},
-          "thorough": {"topologies": 9000, "executions": 100000, "mirrored_pairs": 20000, "permutations_compared": 50000, "conflicts_expected": 1000, "merge_law_checks": 100000, "shared_handler_constants_checked": 7000}}
+FLOORS = {"quick": {"topologies": 250, "executions": 3000, "mirrored_pairs": 600, "permutations_compared": 1500, "conflicts_expected": 30, "merge_law_checks": 3000, "shared_handler_constants_checked": 200, "peer_options_checked": 300},
+          "thorough": {"topologies": 9000, "executions": 100000, "mirrored_pairs": 20000, "permutations_compared": 50000, "conflicts_expected": 1000, "merge_law_checks": 100000, "shared_handler_constants_checked": 7000, "peer_options_checked": 10000}}
 
 
 def plan(tier, seed):
@@ -90,7 +90,11 @@ def gen_rules(rng, topo):
                 "asn_l": 64000 + rng.randint(0, 9) * 100, "asn_r": 65000 + rng.randint(0, 9) * 100,
                 "families": rng.sample(["ipv4_unicast", "ipv6_unicast", "ipv4_labeled_unicast"], rng.randint(1, 2)),
                 "bfd": rng.random() < 0.5, "iface": rng.choice(["port", "port", "lag", "subif", "subif0", "lag+subif", "svi"]),
-                "mtu": rng.choice([None, 1500, 9000]), "role": "base"}
+                "mtu": rng.choice([None, 1500, 9000]), "role": "base",
+                # per-peer options, assigned alike on both sides, with values of the declared types
+                "peer_opts": dict(rng.sample([("multihop", 3), ("rr_client", True), ("hold_time", 30), ("af_loops", 2), ("af_rib_group", "rg1"),
+                                              ("listen_network", ["10.0.0.0/8"]), ("next_hop_self", True), ("remove_private", True), ("passive", True),
+                                              ("soft_reconfiguration_inbound", True), ("bmp_monitor", True)], rng.randint(0, 4)))}
         if base["ports"] == "united" and base["iface"] in ("port", "subif", "subif0"):
             base["iface"] = rng.choice(["lag", "svi", "lag+subif"]) if any(sum(1 for l in topo["links"] if {l[0], l[1]} == {a, b}) > 1
                                                                                for a, b in itertools.combinations(topo["devices"], 2)) else base["iface"]
@@ -179,6 +183,12 @@ def make_registry(rules, order):
                     session.send_community = True
                 if r.get("mtu") is not None:
                     left.mtu = right.mtu = r["mtu"]
+                for k_, v_ in (r.get("peer_opts") or {}).items():
+                    if k_ == "bmp_monitor":
+                        session.bmp_monitor = v_
+                    else:
+                        setattr(left, k_, list(v_) if isinstance(v_, list) else v_)
+                        setattr(right, k_, list(v_) if isinstance(v_, list) else v_)
                 if r.get("description"):
                     left.description = right.description = r["description"]
                 it = r["iface"]
@@ -444,6 +454,12 @@ def _check_case(seed, acc, rng, topo, rules):
                             acc.violation("C15/session-option-lost", "an option the handlers set on the session is missing from (or invented on) this end's peer",
                                           dict(w, device=A, peer=p, expected_bfd=exp_bfd, expected_send_community=exp_sc))
                             return w
+                        for k_, v_ in (r.get("peer_opts") or {}).items():
+                            acc.count("peer_options_checked")
+                            if p["options"].get(k_) != str(v_):
+                                acc.violation("C15/peer-option-lost", "a per-peer option the handler assigned on this side is missing from (or altered in) the peer",
+                                              dict(w, device=A, peer=p, option=k_, expected=str(v_)))
+                                return w
                         exp_fams = sorted({f for x in same for f in x["families"]})
                         if p["families"] != exp_fams:
                             acc.violation("C15/families-not-united", "the peer's address families are not the union of what the matching handlers set", dict(w, device=A, peer=p, expected=exp_fams))
